@@ -23,15 +23,18 @@ CLAIMED = {
             "builder.commit are outside.",
             "osutils.is_inside_any (Rust) replaced by a python model validated against it before each run; reporter and "
             "tree are stubs"),
-    "C04": ("ordering of the durable effects of commit / autopack (crash points between effects)",
+    "C04": ("ordering of the durable effects of commit / autopack / pack (crash points between effects)",
             "The real RepositoryPackCollection._commit_write_group, allocate, autopack / _do_autopack / "
             "plan_autopack_combinations, _execute_pack_operations, _save_pack_names (+ diff / synchronise), "
             "_clear_obsolete_packs and _obsolete_packs with in-memory bookkeeping run over record packs with SYMBOLIC "
             "revision counts (which decide whether and what autopack combines); finishing a pack, replacing pack-names and "
             "moving a pack to obsolete_packs are recorded as effects in the order the code performs them. After EVERY "
             "prefix of the effects (= a crash there) the pack list names only packs that are complete and not moved away, "
-            "and the listed packs hold exactly the old or exactly the new set of revisions. Crash points inside "
-            "NewPack.finish / Packer.pack, fetch, explicit pack() and the consistency check of a real repository are outside.",
+            "and the listed packs hold exactly the old or exactly the new set of revisions, and no pack is ever finished "
+            "(index and pack files written in place) under a name pack-names lists at that moment. Same for an explicit "
+            "pack() through the real GCCHKPacker.pack / _create_pack_from_packs (content copying is a stand-in; whether "
+            "the repacked content hashes to the only live pack's name is symbolic). Crash points inside NewPack.finish, "
+            "the content copying of the packers, fetch and the consistency check of a real repository are outside.",
             "a finished pack is durable as a whole, pack-names is replaced atomically, no concurrent writer (C05)"),
     "C05": ("three-way merge of pack-names (kernel)",
             "Decides the sentence 'the pack list written by any process is the three-way merge of its own changes with "
